@@ -605,6 +605,44 @@ func main() {
 		}
 	}
 
+	// ---- locking discipline of the generator and of groupNodeInfo: every X.Lock() / X.RLock() statement
+	// is immediately followed by `defer X.Unlock()` / `defer X.RUnlock()`
+	var lockViolations []string
+	locksSeen := 0
+	for _, rel0 := range []string{"model/group_sign.go", "logical/group_create/group_node_info.go", "logical/round_sign_piece.go"} {
+		f := parsed[filepath.Join(cons, rel0)]
+		for _, d := range f.Decls {
+			fd, ok := d.(*ast.FuncDecl)
+			if !ok || fd.Body == nil {
+				continue
+			}
+			var walk func(list []ast.Stmt)
+			walk = func(list []ast.Stmt) {
+				for i, st := range list {
+					if es, ok := st.(*ast.ExprStmt); ok {
+						if c, ok := es.X.(*ast.CallExpr); ok {
+							if se, ok := c.Fun.(*ast.SelectorExpr); ok && (se.Sel.Name == "Lock" || se.Sel.Name == "RLock") && len(c.Args) == 0 {
+								locksSeen++
+								want := "defer " + show(se.X) + "." + map[string]string{"Lock": "Unlock", "RLock": "RUnlock"}[se.Sel.Name] + "()"
+								if i+1 >= len(list) || show(list[i+1]) != want {
+									lockViolations = append(lockViolations, rel0+":"+fd.Name.Name+": "+show(st)+" not followed by "+want)
+								}
+							}
+						}
+					}
+					ast.Inspect(st, func(n ast.Node) bool {
+						if b, ok := n.(*ast.BlockStmt); ok {
+							walk(b.List)
+							return false
+						}
+						return true
+					})
+				}
+			}
+			walk(fd.Body.List)
+		}
+	}
+
 	// ---- write Lean
 	var b strings.Builder
 	b.WriteString("/-! GENERATED by gen/cmd/c13facts from the go-rangers working tree; do not edit.\n")
@@ -668,6 +706,14 @@ func main() {
 		s.WriteString(lq(x))
 	}
 	fmt.Fprintf(&s, "]\n\ndef pathFilesScanned : Nat := %d\n", scanned)
+	s.WriteString("\n/-- Lock()/RLock() statements in the generators and groupNodeInfo that are not immediately followed by the matching deferred unlock -/\ndef lockWithoutDeferUnlock : List String := [")
+	for i, x := range lockViolations {
+		if i > 0 {
+			s.WriteString(", ")
+		}
+		s.WriteString(lq(x))
+	}
+	fmt.Fprintf(&s, "]\n\ndef lockStatementsSeen : Nat := %d\n", locksSeen)
 	s.WriteString("\n/-- round1.Update from the first AddWitnessSign on, logger calls dropped -/\ndef round1UpdateTail : List String := [\n")
 	for i, x := range round1Tail {
 		sep := ","
